@@ -321,6 +321,16 @@ def F18():
         shutil.rmtree(root)
 
 
+def F19():
+    import json
+    ds = _mk_ds()
+    del ds.PixelData
+    ds.FloatPixelData = np.arange(4, dtype=np.float32).tobytes()
+    meta = extract.default_extractor(ds)
+    if 'FloatPixelData' in meta:
+        return 'FloatPixelData (7FE0,0008) extracted as meta data by the default extractor'
+
+
 # ---- open findings (recorded in known-findings.txt, not repaired): these report PRESENT on the current tree
 def N1():
     e = DcmMetaExtension.make_empty((2, 2, 2, 1), np.eye(4), None, 2)
@@ -392,7 +402,7 @@ def deepcopy_ext(e):
 
 
 OPEN = ['N1', 'N2', 'N3', 'N4', 'N6', 'N8']
-ALL = ['F18', 'F17', 'F16', 'F15', 'F1', 'F2', 'F3', 'F4', 'F5', 'F6', 'F7', 'F8', 'F9', 'F10', 'F11', 'F12', 'F13', 'F14']
+ALL = ['F19', 'F18', 'F17', 'F16', 'F15', 'F1', 'F2', 'F3', 'F4', 'F5', 'F6', 'F7', 'F8', 'F9', 'F10', 'F11', 'F12', 'F13', 'F14']
 
 if __name__ == '__main__':
     which = sys.argv[1:] or ALL
